@@ -3,7 +3,7 @@ exhaustive over 8/16-bit keys; assignments compared across two OS processes."""
 import sys, os
 sys.path.insert(0, os.path.dirname(os.path.dirname(os.path.abspath(__file__))))
 PID = "C05"
-CASE_LIMIT = {"C05": 15, "C05range": 15}   # seconds: these cases are function calls, not sessions
+CASE_LIMIT = {"C05": 45, "C05range": 45}   # seconds: these cases are function calls, not sessions
 SUBS = ["C05range", "C05", "C05e2e"]
 PARALLEL = {"C05e2e": 8}
 RULE = ("C05range: every key of int8/uint8 (quick) and int16/uint16 (thorough; quick samples 4 shard counts) for shard counts "
